@@ -82,9 +82,16 @@ class Prop(PropBase):
                         wire = wire[:rng.randrange(0, cfg.user + cfg.tail + 1)]     # cannot even hold the layers
                     s.pkt(0, wire)
                     direct.append(pkt)
+                if l.jumbo:
+                    # the reserved tail behind the 63 sub packets looks like the start of a 64th one
+                    off = l.T['n_sub'] * l.T['sizeof_sub']
+                    b = bytearray(mk()); b[off:off + 4] = bytes.fromhex('55aa5aa5')
+                    if rng.random() < 0.5:
+                        b[off + 4:off + 40] = bytes(rng.randrange(256) for _ in range(36))
+                    s.pkt(0, bytes(b)); direct.append(bytes(b))
                 s.add('T 0')
                 scn_all.append(s.text())
-                if not l.jumbo:
+                if not l.jumbo or r == 0:
                     ks.append(f'K direct {l.code} {rng.randrange(2)} ' + ','.join(p.hex() for p in direct))
         out.append(('drv', '\n'.join(scn_all) + '\n'))
         out.append(('kern_direct', '\n'.join(ks) + '\n'))
